@@ -113,7 +113,12 @@ let run_case2 op t =
       let p = if in_yr y && List.for_all (fun ((y', _), _) -> in_yr y') sp then
           okl (List.concat_map (fun ((y', m'), d') -> zs [ y'; m'; d' ] @ bs [ date_exists y' m' d' ]) sp) else "na" in
       (ml, p)
-  | "ymdl" | "ymdl_bad" ->
+  | "ymdl_bad" ->
+      let y = next_z t in let m = next_z t in
+      (* the calls are made (the model has no undefined outcome for them); only ok() is printed *)
+      let defined = match ymdl_to_days_m y m, ymdl_to_ymd_m y m with Ok _, Ok _ -> true | _ -> false in
+      ((if defined then okl (bs [ ymdl_ok_m y m ]) else "ub"), okl (bs [ year_ok_spec y && month_ok_spec m ]))
+  | "ymdl" | "ymdl_badv" ->
       let y = next_z t in let m = next_z t in
       let ml = leg [ bs [ ymdl_ok_m y m ]; rz (ymdl_day_m y m); rtriple (ymdl_to_ymd_m y m); rz (ymdl_to_days_m y m); rz (ymdl_to_days_m y m) ] in
       let ld = dim y m in
@@ -208,12 +213,15 @@ let run_case op t =
   | "civil" ->
       let z = next_z t in
       let m = opt3 (civil_from_days_m z) in
-      (* spec: walk from the first supported day; only evaluated near the start of the range
-         (the walker is unary); elsewhere the reference is the theorem + std::chrono *)
-      (m, "na")
+      (* spec, checker style: the walker is unary (too slow to run on 24 M days), so the answer is VALIDATED against
+         the independent textbook day count: it must be an existing date whose day number is z *)
+      let p = match civil_from_days_m z with
+        | Some ((y, mo), d) -> if date_exists y mo d && zeq (days_spec y mo d) z then m else "spec-rejects"
+        | None -> "na" in
+      (m, p)
   | "days" ->
       let y = next_z t in let m = next_z t in let d = next_z t in
-      (optz (days_from_civil_m y m d), "na")
+      (optz (days_from_civil_m y m d), if in_yr y && month_ok_spec m then okz (days_spec y m d) else "na")
   | "roundtrip" ->
       let z = next_z t in
       let r = match civil_from_days_m z with
